@@ -57,13 +57,14 @@ type node struct {
 }
 
 type client struct {
-	node    int
-	conn    *h.Conn
-	prog    [][]string
-	next    int // next command to submit
-	pending int // commands submitted and not yet answered
-	ops     []*cop
-	dead    bool // its node crashed: the connection is gone
+	node      int
+	conn      *h.Conn
+	prog      [][]string
+	next      int // next command to submit
+	pending   int // commands submitted and not yet answered
+	ops       []*cop
+	dead      bool // its node crashed: the connection is gone
+	mayBeLost bool // submitted through a node that was isolated at the time (scripts)
 }
 
 type cop struct {
@@ -450,17 +451,35 @@ func (s *sim) awaitProposal(ci int, op *cop) bool {
 	args := op.Args
 	n := s.nodes[c.node]
 	op.ID = "?"
-	select {
-	case p := <-n.proposeC:
-		op.ID = p.ID
-		n.mu.Lock()
-		n.waiting[p.ID] = op
-		n.mu.Unlock()
-		n.vn.RN.Propose(p.ToBytes()) // the error is ignored, as in serveChannels
-	case <-time.After(60 * time.Second):
-		s.failed = fmt.Sprintf("client %d: command %q was never turned into a proposal", ci, args)
+	deadline := time.Now().Add(60 * time.Second)
+	for {
+		select {
+		case p := <-n.proposeC:
+			op.ID = p.ID
+			n.mu.Lock()
+			n.waiting[p.ID] = op
+			n.mu.Unlock()
+			n.vn.RN.Propose(p.ToBytes()) // the error is ignored, as in serveChannels
+			return true
+		case <-time.After(200 * time.Microsecond):
+			if len(c.conn.Output()) > 0 {
+				// answered by the node itself, without a proposal (a rejected command - or an
+				// implementation that serves some commands locally): the reply is part of the history
+				raw, v, st := c.conn.TakeReply(60 * time.Second)
+				if st == "ok" {
+					s.step++
+					op.ID = "local"
+					op.Done, op.Ret, op.Reply, op.Raw = true, s.step, v, raw
+					c.pending--
+					return true
+				}
+			}
+			if time.Now().After(deadline) {
+				s.failed = fmt.Sprintf("client %d: command %q was never turned into a proposal", ci, args)
+				return true
+			}
+		}
 	}
-	return true
 }
 
 // notePending attaches a proposal pumped outside submit to the oldest unanswered operation of
